@@ -31,7 +31,7 @@ class C07(Check):
     pid = 'C07'
     level = 'model_checking'
     rule = ('case = (profile, seats) run under ALL n! tie orders x 11 rules: U(3,<=4) all 6 orders (thorough also U(3,5), U(3,6)), U(2,<=8), 4-candidate W(4,2,3,{1,2}) under 6 of 24 orders '
-            '(thorough all 24), bullets+one-pair profiles BP(4,3,1,{3..6}) for the batch rules (sure-loser sets next to a pending surplus; thorough also W(4,2,4,{2,5,8})), 5-candidate W(5,2,3,{1,2}) and the bullets+pairs family BP(4) for scotland (ties resolved by a prior stage, incl. ties that two earlier stages decide differently). '
+            '(thorough all 24), bullets+one-pair profiles BP(4,3,1,{3..6}) and bullet piles BU(4) for the batch rules (sure-loser sets next to a pending surplus; thorough also W(4,2,4,{2,5,8})), 5-candidate W(5,2,3,{1,2}) and the bullets+pairs family BP(4) for scotland (ties resolved by a prior stage, incl. ties that two earlier stages decide differently). '
             'wigm/meek/warren under guarded default, fixed-4 and (thorough) rational. states = distinct decision snapshots (statuses + tallies at an exclusion / surplus choice), '
             'transitions = distinct (decision snapshot, chosen candidate(s)); traces_validated = real counts all of whose decisions conformed. '
             'non-trivial = counts containing a tie, a prior-stage resolution or a batch exclusion')
@@ -58,6 +58,7 @@ class C07(Check):
         batch = [{'rule': 'wigm-prf-batch'}, {'rule': 'cfer-batch'}, {'rule': 'mpls'}, {'rule': 'meek'}, {'rule': 'warren', 'arithmetic': 'fixed', 'precision': 4}]
         yield from fam(4, spaces.W(4, 2, 3, (1, 2)), (1, 2, 3), 'idrev' if q else 'all', configs.DEFAULTS if q else D)
         yield from fam(4, spaces.BP(4, 3, 1, (3, 4, 5, 6)), (1, 2, 3), 'idrev', batch)
+        yield from fam(4, spaces.BU(4), (1, 2, 3), 'idrev', batch)
         yield from fam(5, spaces.W(5, 2, 3, (1, 2)), (1, 2), 'idrev', [{'rule': 'scotland'}, {'rule': 'wigm-prf-batch'}])
         yield from fam(4, spaces.BP(4), (1,), 'idrev', [{'rule': 'scotland'}])
         if not q:
